@@ -39,40 +39,54 @@ pub fn any_cpu(start: u64) -> Cpu {
     }
 }
 
-fn region_at(pc: u64) -> Option<sim::Region> {
+/// contents of the live region that starts at `pc`, copied out BY VALUE.
+/// (References into the `static mut` region tables with an index >= 1, and `Option<(bool,usize)>`
+/// results, were measured to give wrong answers under Kani 0.68 although the same code is right
+/// natively; plain structs copied by value are not affected.)
+pub struct Fetch {
+    pub found: bool,
+    pub bytes: [u8; sim::RLEN],
+    pub dirty: [bool; sim::RLEN],
+}
+fn fetch(pc: u64) -> Fetch {
+    let mut f = Fetch { found: false, bytes: [0; sim::RLEN], dirty: [false; sim::RLEN] };
     unsafe {
         let mut i = 0;
-        while i < sim::NE {
-            if sim::ENT[i].live && sim::ENT[i].base == pc {
-                return Some(sim::ENT[i]);
+        while i < sim::S.NE_ACT {
+            if !f.found && sim::ENT[i].live && sim::ENT[i].base == pc {
+                f.found = true;
+                f.bytes = sim::ENT[i].bytes;
+                f.dirty = sim::ENT[i].dirty;
             }
             i += 1;
         }
         let mut j = 0;
-        while j < sim::NJ {
-            if sim::JIT[j].live && sim::JIT[j].base == pc {
-                return Some(sim::JIT[j]);
+        while j < sim::S.NJ_ACT {
+            if !f.found && sim::JIT[j].live && sim::JIT[j].base == pc {
+                f.found = true;
+                f.bytes = sim::JIT[j].bytes;
+                f.dirty = sim::JIT[j].dirty;
             }
             j += 1;
         }
-        None
     }
+    f
 }
 
-/// is `pc` inside (not at the start of) a modelled region, live or not
+/// is `pc` inside (not at the start of) a modelled region, or inside a page that held a
+/// trampoline which has since been unmapped
 pub fn inside_some_region(pc: u64) -> bool {
     unsafe {
         let mut i = 0;
-        while i < sim::NE {
+        while i < sim::S.NE_ACT {
             if sim::ENT[i].live && pc > sim::ENT[i].base && pc < sim::ENT[i].base + sim::RLEN as u64 {
                 return true;
             }
             i += 1;
         }
         let mut j = 0;
-        while j < sim::NJ {
-            // a freed trampoline is unmapped memory: landing there is a crash
-            if sim::JIT[j].base != 0 && pc >= sim::JIT[j].base && pc < sim::JIT[j].base + unsafe { sim::PAGE } {
+        while j < sim::S.NJ_ACT {
+            if sim::JIT[j].base != 0 && pc >= sim::JIT[j].base && pc < sim::JIT[j].base + sim::S.PAGE {
                 if !(sim::JIT[j].live && pc == sim::JIT[j].base) {
                     return true;
                 }
@@ -89,86 +103,106 @@ fn le32(b: &[u8; sim::RLEN], o: usize) -> u32 {
 fn le64(b: &[u8; sim::RLEN], o: usize) -> u64 {
     (le32(b, o) as u64) | ((le32(b, o + 4) as u64) << 32)
 }
+fn any_dirty(d: &[bool; sim::RLEN], n: usize) -> bool {
+    let mut r = false;
+    let mut k = 0;
+    while k < 12 {
+        if k < n && d[k] {
+            r = true;
+        }
+        k += 1;
+    }
+    r
+}
 
-/// Execute the block starting at `cpu.pc` (which must be the base of a live region).
-/// Returns true if control was transferred (cpu.pc updated), false on `bad`.
-fn exec_block(cpu: &mut Cpu, r: &sim::Region) -> bool {
-    let b = &r.bytes;
-    let mut o = 0usize;
-    let mut n = 0;
-    while n < 2 {
-        // longest instruction is 10 bytes; o <= 10 here
-        let op = b[o];
-        let len;
-        let mut transfer = false;
-        if op == 0xE9 {
-            len = 5;
-            let rel = le32(b, o + 1) as i32 as i64 as u64;
-            cpu.pc = r.base.wrapping_add(o as u64).wrapping_add(5).wrapping_add(rel);
-            transfer = true;
-        } else if op == 0x48 && b[o + 1] == 0xB8 {
-            len = 10;
-            cpu.regs[0] = le64(b, o + 2);
-        } else if op == 0x48 && b[o + 1] == 0xC7 && b[o + 2] == 0xC0 {
-            len = 7;
-            cpu.regs[0] = le32(b, o + 3) as i32 as i64 as u64;
-        } else if op == 0xFF && b[o + 1] == 0xE0 {
-            len = 2;
+/// Execute the instructions at the start of region `r` until control is transferred.
+/// Instruction boundaries are concrete: a block is one of
+///   E9 rel32 | 48 B8 imm64 ; FF E0 | 48 B8 imm64 ; C3 | 48 C7 C0 imm32 ; C3 | 48 C7 C0 imm32 ; FF E0 | FF E0 | C3
+fn exec_block(cpu: &mut Cpu, base: u64, b: &[u8; sim::RLEN], d: &[bool; sim::RLEN]) -> bool {
+    let used;
+    if b[0] == 0xE9 {
+        let rel = le32(b, 1) as i32 as i64 as u64;
+        cpu.pc = base.wrapping_add(5).wrapping_add(rel);
+        used = 5;
+    } else if b[0] == 0xFF && b[1] == 0xE0 {
+        cpu.pc = cpu.regs[0];
+        used = 2;
+    } else if b[0] == 0xC3 {
+        cpu.pc = cpu.ret_addr;
+        cpu.rsp = cpu.rsp.wrapping_add(8);
+        cpu.returned = true;
+        used = 1;
+    } else if b[0] == 0x48 && b[1] == 0xB8 {
+        cpu.regs[0] = le64(b, 2);
+        if b[10] == 0xFF && b[11] == 0xE0 {
             cpu.pc = cpu.regs[0];
-            transfer = true;
-        } else if op == 0xC3 {
-            len = 1;
+            used = 12;
+        } else if b[10] == 0xC3 {
             cpu.pc = cpu.ret_addr;
             cpu.rsp = cpu.rsp.wrapping_add(8);
             cpu.returned = true;
-            transfer = true;
+            used = 11;
         } else {
             cpu.bad = true;
             return false;
         }
-        let mut k = 0;
-        while k < 10 {
-            if k < len && r.dirty[o + k] {
-                cpu.fetched_dirty = true;
-            }
-            k += 1;
+    } else if b[0] == 0x48 && b[1] == 0xC7 && b[2] == 0xC0 {
+        cpu.regs[0] = le32(b, 3) as i32 as i64 as u64;
+        if b[7] == 0xC3 {
+            cpu.pc = cpu.ret_addr;
+            cpu.rsp = cpu.rsp.wrapping_add(8);
+            cpu.returned = true;
+            used = 8;
+        } else if b[7] == 0xFF && b[8] == 0xE0 {
+            cpu.pc = cpu.regs[0];
+            used = 9;
+        } else {
+            cpu.bad = true;
+            return false;
         }
-        if transfer {
-            return true;
-        }
-        o += len;
-        n += 1;
+    } else {
+        cpu.bad = true;
+        return false;
     }
-    cpu.bad = true;
-    false
+    if any_dirty(d, used) {
+        cpu.fetched_dirty = true;
+    }
+    true
 }
 
 /// Run from cpu.pc until control leaves the modelled regions (or `ret`), at most `max` blocks.
 pub fn run(cpu: &mut Cpu, max: usize) {
     let mut n = 0;
     while n < max {
-        if cpu.returned {
+        if cpu.returned || cpu.bad {
             return;
         }
-        match region_at(cpu.pc) {
-            None => {
-                if inside_some_region(cpu.pc) {
-                    cpu.bad = true;
-                }
-                return;
+        let f = fetch(cpu.pc);
+        if !f.found {
+            if inside_some_region(cpu.pc) {
+                cpu.bad = true;
             }
-            Some(r) => {
-                if !exec_block(cpu, &r) {
-                    return;
-                }
-            }
+            return;
         }
+        let pc = cpu.pc;
+        exec_block(cpu, pc, &f.bytes, &f.dirty);
         n += 1;
     }
     // still inside patched code after `max` blocks: a cycle
-    if region_at(cpu.pc).is_some() {
+    if !cpu.returned && !cpu.bad && fetch(cpu.pc).found {
         cpu.bad = true;
     }
+}
+
+/// execute exactly the block at cpu.pc
+pub fn run_one_block(cpu: &mut Cpu) {
+    let f = fetch(cpu.pc);
+    if !f.found {
+        cpu.bad = true;
+        return;
+    }
+    let pc = cpu.pc;
+    exec_block(cpu, pc, &f.bytes, &f.dirty);
 }
 
 /// all registers except rax (index 0) equal, stack pointer equal, no memory written
